@@ -1,7 +1,6 @@
-import PySMT.Proofs.C10PrenexSem
+import PySMT.Proofs.C10Alpha
 /-!
-# C10 — `prenex_normal_form` returns an equivalent formula when no bound variable has to be
-renamed (`prenex_equiv_partial`)
+# C10 — `prenex_normal_form`: the invariant of the walk and the merge of clash-free prefixes
 -/
 namespace PySMT.Rewritings
 
@@ -51,113 +50,13 @@ theorem mem_boundOf_flatMap {as : List (List QBlock × Term)} {s : Sym} :
   · rintro ⟨r, hr, _, ⟨blk, hb, rfl⟩, hs⟩
     exact ⟨_, ⟨blk, ⟨r, hr, hb⟩, rfl⟩, hs⟩
 
-/-! ## merging without renaming -/
-
-theorem filter_eq_nil_of {α} {p : α → Bool} {l : List α} (h : ∀ a ∈ l, p a = false) : l.filter p = [] := by
-  rw [List.filter_eq_nil_iff]
-  intro a ha; simp [h a ha]
-
-theorem mergeBlocks_nc (fresh : Nat → String) : ∀ (qs : List QBlock) (res : List Sym) (m : Term) (n : Nat),
-    noClash qs res = true → mergeBlocks fresh qs res m n = (qs, res ++ boundOf qs, m, n)
-  | [], res, m, n, _ => by simp [mergeBlocks, boundOf]
-  | (q, vs) :: rest, res, m, n, h => by
-    simp only [noClash, Bool.and_eq_true, List.all_eq_true, Bool.not_eq_eq_eq_not, Bool.not_true] at h
-    have hc : vs.filter (fun v => res.contains v) = [] := filter_eq_nil_of h.1
-    have hk : vs.filter (fun v => !res.contains v) = vs := by
-      rw [List.filter_eq_self]
-      intro a ha; have := h.1 a ha; simpa using this
-    simp only [mergeBlocks, hc, hk, List.zipIdx_nil, List.map_nil, List.isEmpty_nil, if_true, List.append_nil,
-      List.length_nil, Nat.add_zero]
-    rw [mergeBlocks_nc fresh rest _ m n h.2, boundOf_cons, List.append_assoc]
-
-theorem mergeArgs_nc (fresh : Nat → String) : ∀ (as : List (List QBlock × Term)) (res : List Sym) (n : Nat),
-    noClashArgs as res = true → mergeArgs fresh as res n = (as.flatMap (·.1), as.map (·.2), n)
-  | [], _, _, _ => by simp [mergeArgs]
-  | (qs, m) :: rest, res, n, h => by
-    simp only [noClashArgs, Bool.and_eq_true] at h
-    simp only [mergeArgs, mergeBlocks_nc fresh qs res m n h.1, mergeArgs_nc fresh rest _ n h.2,
-      List.flatMap_cons, List.map_cons]
-
-theorem conjDisj_nc (fresh : Nat → String) (isAnd : Bool) (fvs : List Sym) (as : List (List QBlock × Term))
-    (n : Nat) (h : noClashArgs as fvs = true) :
-    conjDisj fresh isAnd fvs as n =
-      ((as.flatMap (·.1), if isAnd then mkAnd (as.map (·.2)) else mkOr (as.map (·.2))), n) := by
-  simp only [conjDisj, mergeArgs_nc fresh as fvs n h]
-
-/-! ## the supply counter: it never decreases, and it stays put only if nothing clashed -/
-
-theorem mergeBlocks_le (fresh : Nat → String) : ∀ (qs : List QBlock) (res : List Sym) (m : Term) (n : Nat),
-    n ≤ (mergeBlocks fresh qs res m n).2.2.2
-  | [], _, _, _ => Nat.le_refl _
-  | (q, vs) :: rest, res, m, n => by
-    simp only [mergeBlocks]
-    exact Nat.le_trans (Nat.le_add_right _ _) (mergeBlocks_le fresh rest _ _ _)
-
-theorem mergeBlocks_eq (fresh : Nat → String) : ∀ (qs : List QBlock) (res : List Sym) (m : Term) (n : Nat),
-    (mergeBlocks fresh qs res m n).2.2.2 = n → noClash qs res = true
-  | [], _, _, _, _ => rfl
-  | (q, vs) :: rest, res, m, n, h => by
-    simp only [mergeBlocks] at h
-    have hle := mergeBlocks_le fresh rest
-      (res ++ (vs.filter (fun v => !res.contains v) ++
-        ((vs.filter (fun v => res.contains v)).zipIdx.map
-          (fun vi => (vi.1, Sym.var (fresh (n + vi.2)) vi.1.ret))).map (·.2)))
-      (if (vs.filter (fun v => res.contains v)).isEmpty then m
-       else substT (((vs.filter (fun v => res.contains v)).zipIdx.map
-          (fun vi => (vi.1, Sym.var (fresh (n + vi.2)) vi.1.ret))).map
-            (fun vw => (Term.sym vw.1, Term.sym vw.2))) m)
-      (n + (vs.filter (fun v => res.contains v)).length)
-    have hlen : (vs.filter (fun v => res.contains v)).length = 0 := by omega
-    have hc : vs.filter (fun v => res.contains v) = [] := List.eq_nil_of_length_eq_zero hlen
-    have hall : ∀ v ∈ vs, res.contains v = false := by
-      intro v hv
-      cases hcv : res.contains v with
-      | false => rfl
-      | true =>
-        have : v ∈ vs.filter (fun v => res.contains v) := List.mem_filter.mpr ⟨hv, hcv⟩
-        rw [hc] at this; cases this
-    have hk : vs.filter (fun v => !res.contains v) = vs := by
-      rw [List.filter_eq_self]
-      intro a ha; have := hall a ha; simpa using this
-    simp only [hc, hk, List.zipIdx_nil, List.map_nil, List.isEmpty_nil, if_true, List.append_nil,
-      List.length_nil, Nat.add_zero] at h
-    simp only [noClash, Bool.and_eq_true, List.all_eq_true, Bool.not_eq_eq_eq_not, Bool.not_true]
-    exact ⟨hall, mergeBlocks_eq fresh rest _ m n h⟩
-
-theorem mergeArgs_le (fresh : Nat → String) : ∀ (as : List (List QBlock × Term)) (res : List Sym) (n : Nat),
-    n ≤ (mergeArgs fresh as res n).2.2
-  | [], _, _ => Nat.le_refl _
-  | (qs, m) :: rest, res, n => by
-    simp only [mergeArgs]
-    exact Nat.le_trans (mergeBlocks_le fresh qs res m n) (mergeArgs_le fresh rest _ _)
-
-theorem mergeArgs_eq (fresh : Nat → String) : ∀ (as : List (List QBlock × Term)) (res : List Sym) (n : Nat),
-    (mergeArgs fresh as res n).2.2 = n → noClashArgs as res = true
-  | [], _, _, _ => rfl
-  | (qs, m) :: rest, res, n, h => by
-    simp only [mergeArgs] at h
-    have h1 := mergeBlocks_le fresh qs res m n
-    have h2 := mergeArgs_le fresh rest (mergeBlocks fresh qs res m n).2.1 (mergeBlocks fresh qs res m n).2.2.2
-    have e1 : (mergeBlocks fresh qs res m n).2.2.2 = n := by omega
-    have hnc := mergeBlocks_eq fresh qs res m n e1
-    rw [mergeBlocks_nc fresh qs res m n hnc] at h
-    simp only [noClashArgs, Bool.and_eq_true]
-    exact ⟨hnc, mergeArgs_eq fresh rest _ n h⟩
-
-theorem conjDisj_le (fresh : Nat → String) (isAnd : Bool) (fvs : List Sym) (as : List (List QBlock × Term))
-    (n : Nat) : n ≤ (conjDisj fresh isAnd fvs as n).2 := mergeArgs_le fresh as fvs n
-
-theorem conjDisj_eq (fresh : Nat → String) (isAnd : Bool) (fvs : List Sym) (as : List (List QBlock × Term))
-    (n : Nat) (h : (conjDisj fresh isAnd fvs as n).2 = n) : noClashArgs as fvs = true :=
-  mergeArgs_eq fresh as fvs n h
-
 /-! ## the invariant of the walk -/
 
 /-- `r = (blocks, matrix)` is a correct prenex form of `t` -/
 structure Good (t : Term) (r : List QBlock × Term) : Prop where
   wb : WB r.2
   sem : ∀ I : Interp, I.WF → qsem r.1 (fun J => truth J r.2) I = truth I t
-  fv : ∀ s ∈ r.2.fv, s ∈ t.fv ∨ s ∈ boundOf r.1
+  supp : Supp (t.fv ++ boundOf r.1) (fun J => truth J r.2)
 
 /-- pointwise relation of two lists -/
 inductive All2 {α β : Type} (R : α → β → Prop) : List α → List β → Prop
@@ -207,10 +106,10 @@ theorem merge_sem (c : Bool) {args : List Term} {as : List (List QBlock × Term)
       apply indep_lbop
       intro m hm
       obtain ⟨r, hr, rfl⟩ := List.mem_map.mp hm
-      apply indep_truth
-      intro s hs hsm
       obtain ⟨aj, haj, hgj⟩ := hg'.mem_right r hr
-      rcases hgj.fv s hsm with h1 | h1
+      apply indep_of_supp hgj.supp
+      intro s hs hsm
+      rcases List.mem_append.mp hsm with h1 | h1
       · exact nc1 s hs (hfv aj (by simp [haj]) s h1)
       · exact nc2 r hr s h1 (List.mem_append_right _ hs)
     -- the first argument does not mention the variables of the other prefixes
@@ -227,31 +126,6 @@ theorem merge_sem (c : Bool) {args : List Term} {as : List (List QBlock × Term)
     congr 1
     exact ih _ (fun a ha s hs => List.mem_append_left _ (hfv a (by simp [ha]) s hs)) hnc.2 I hI
 
-theorem fv_tt : Term.tt.fv = [] := by rw [Term.tt, fv_node_plain _ _ _ (by decide) (by decide) (by decide)]; rfl
-theorem fv_ff : Term.ff.fv = [] := by rw [Term.ff, fv_node_plain _ _ _ (by decide) (by decide) (by decide)]; rfl
-
-theorem fv_mkAnd_sub {ms : List Term} {s : Sym} (h : s ∈ (mkAnd ms).fv) : ∃ m ∈ ms, s ∈ m.fv := by
-  match ms, h with
-  | [], h => rw [show mkAnd [] = Term.tt from rfl, fv_tt] at h; cases h
-  | [a], h => exact ⟨a, by simp, h⟩
-  | a :: b :: rest, h =>
-    rw [show mkAnd (a :: b :: rest) = .node .and (a :: b :: rest) .none from rfl,
-      fv_node_plain _ _ _ (by decide) (by decide) (by decide)] at h
-    simp only [List.mem_flatten, List.mem_map] at h
-    obtain ⟨_, ⟨m, hm, rfl⟩, hs⟩ := h
-    exact ⟨m, hm, hs⟩
-
-theorem fv_mkOr_sub {ms : List Term} {s : Sym} (h : s ∈ (mkOr ms).fv) : ∃ m ∈ ms, s ∈ m.fv := by
-  match ms, h with
-  | [], h => rw [show mkOr [] = Term.ff from rfl, fv_ff] at h; cases h
-  | [a], h => exact ⟨a, by simp, h⟩
-  | a :: b :: rest, h =>
-    rw [show mkOr (a :: b :: rest) = .node .or (a :: b :: rest) .none from rfl,
-      fv_node_plain _ _ _ (by decide) (by decide) (by decide)] at h
-    simp only [List.mem_flatten, List.mem_map] at h
-    obtain ⟨_, ⟨m, hm, rfl⟩, hs⟩ := h
-    exact ⟨m, hm, hs⟩
-
 theorem forall2_wb {args : List Term} {as : List (List QBlock × Term)} (h : All2 Good args as) :
     ∀ m ∈ as.map (·.2), WB m := by
   induction h with
@@ -263,22 +137,14 @@ theorem forall2_wb {args : List Term} {as : List (List QBlock × Term)} (h : All
     · exact hab.wb
     · exact ih m hm
 
-theorem forall2_fv {args : List Term} {as : List (List QBlock × Term)} (h : All2 Good args as) :
-    ∀ r ∈ as, ∀ s ∈ r.2.fv, (∃ a ∈ args, s ∈ a.fv) ∨ s ∈ boundOf r.1 := by
-  induction h with
-  | nil => intro r hr; cases hr
-  | @cons a b l1 l2 hab _ ih =>
-    intro r hr s hs
-    simp only [List.mem_cons] at hr
-    rcases hr with rfl | hr
-    · rcases hab.fv s hs with h1 | h1
-      · exact .inl ⟨a, by simp, h1⟩
-      · exact .inr h1
-    · rcases ih r hr s hs with ⟨a', ha', h1⟩ | h1
-      · exact .inl ⟨a', by simp [ha'], h1⟩
-      · exact .inr h1
+theorem supp_lbop (c : Bool) {S : List Sym} {ms : List Term} (h : ∀ m ∈ ms, Supp S (fun J => truth J m)) :
+    Supp S (fun J => lbop c (ms.map (truth J))) := by
+  intro J J' hJ hJ' hsym hfn hd hr hi
+  simp only
+  congr 1
+  exact List.map_congr_left (fun m hm => h m hm J J' hJ hJ' hsym hfn hd hr hi)
 
-/-- `walk_conj_disj` without renaming: the merged prefix over the conjunction / disjunction
+/-- `walk_conj_disj` on clash-free prefixes: the merged prefix over the conjunction / disjunction
 of the matrices denotes the conjunction / disjunction of the arguments -/
 theorem merge_good (c : Bool) {args : List Term} {as : List (List QBlock × Term)} {fvs : List Sym}
     (hg : All2 Good args as) (hfv : ∀ a ∈ args, ∀ s ∈ a.fv, s ∈ fvs) (hnc : noClashArgs as fvs = true) :
@@ -286,8 +152,8 @@ theorem merge_good (c : Bool) {args : List Term} {as : List (List QBlock × Term
     (∀ I : Interp, I.WF →
       qsem (as.flatMap (·.1)) (fun J => truth J (if c then mkAnd (as.map (·.2)) else mkOr (as.map (·.2)))) I =
         lbop c (args.map (truth I))) ∧
-    (∀ s ∈ (if c then mkAnd (as.map (·.2)) else mkOr (as.map (·.2))).fv,
-      (∃ a ∈ args, s ∈ a.fv) ∨ s ∈ boundOf (as.flatMap (·.1))) := by
+    Supp (fvs ++ boundOf (as.flatMap (·.1)))
+      (fun J => truth J (if c then mkAnd (as.map (·.2)) else mkOr (as.map (·.2)))) := by
   have hwb := forall2_wb hg
   have hM : ∀ J : Interp, J.WF →
       truth J (if c then mkAnd (as.map (·.2)) else mkOr (as.map (·.2))) = lbop c ((as.map (·.2)).map (truth J)) := by
@@ -303,325 +169,44 @@ theorem merge_good (c : Bool) {args : List Term} {as : List (List QBlock × Term
     cases c
     · simp only [Bool.false_eq_true, if_false]; exact wb_mkOr hwb
     · simp only [if_true]; exact wb_mkAnd hwb
-  refine ⟨hwbM, fun I hI => ?_, fun s hs => ?_⟩
+  refine ⟨hwbM, fun I hI => ?_, ?_⟩
   · rw [qsem_congr_wf _ _ _ hM I hI]
     exact merge_sem c hg fvs hfv hnc I hI
-  · have : ∃ m ∈ as.map (·.2), s ∈ m.fv := by
-      cases c
-      · simp only [Bool.false_eq_true, if_false] at hs; exact fv_mkOr_sub hs
-      · simp only [if_true] at hs; exact fv_mkAnd_sub hs
-    obtain ⟨m, hm, hsm⟩ := this
+  · apply Supp.congr _ hM
+    apply supp_lbop
+    intro m hm
     obtain ⟨r, hr, rfl⟩ := List.mem_map.mp hm
-    rcases forall2_fv hg r hr s hsm with h1 | h1
-    · exact .inl h1
-    · exact .inr (mem_boundOf_flatMap.mpr ⟨r, hr, h1⟩)
-
-/-! ## the walker's rules, one by one -/
-
-theorem good_atom {t : Term} (h : WB t) : Good t ([], t) :=
-  ⟨h, fun _ _ => rfl, fun _ hs => .inl hs⟩
-
-theorem fv_not (a : Term) (p : Payload) (s : Sym) : s ∈ (Term.node .not [a] p).fv ↔ s ∈ a.fv := by
-  rw [fv_node_plain _ _ _ (by decide) (by decide) (by decide)]
-  simp
-
-theorem fv_mkNot_sub {m : Term} {s : Sym} (h : s ∈ (mkNot m).fv) : s ∈ m.fv := by
-  rcases mkNot_cases m with ⟨a, p, rfl, h2⟩ | h2
-  · rw [h2] at h; exact (fv_not a p s).mpr h
-  · rw [h2] at h; exact (fv_not m .none s).mp h
-
-theorem prenexNot_eq (r : List QBlock × Term) : prenexNot r = (flipBlocks r.1, mkNot r.2) := rfl
-
-theorem good_not {t : Term} {r : List QBlock × Term} (p : Payload) (h : Good t r) :
-    Good (.node .not [t] p) (prenexNot r) := by
-  rw [prenexNot_eq]
-  refine ⟨wb_mkNot h.wb, fun I hI => ?_, fun s hs => ?_⟩
-  · simp only
-    rw [qsem_congr_wf _ _ (fun J => !truth J r.2) (fun J hJ => truth_of_eval (eval_mkNot hJ h.wb)) I hI,
-      ← qsem_not, h.sem I hI, truth_not]
-  · simp only at hs ⊢
-    rw [boundOf_flip]
-    rcases h.fv s (fv_mkNot_sub hs) with h1 | h1
-    · exact .inl ((fv_not t p s).mpr h1)
-    · exact .inr h1
-
-theorem mem_fv_of_child {op : Op} (h1 : op ≠ .symbol) (h2 : op ≠ .function) (h3 : op.isQuantifier = false)
-    {args : List Term} {p : Payload} {a : Term} (ha : a ∈ args) {s : Sym} (hs : s ∈ a.fv) :
-    s ∈ (Term.node op args p).fv := by
-  rw [fv_node_plain _ _ _ h1 h2 h3]
-  simp only [List.mem_flatten, List.mem_map]
-  exact ⟨_, ⟨a, ha, rfl⟩, hs⟩
-
-/-- `walk_conj_disj` on an `And` / `Or` node -/
-theorem good_conj (c : Bool) {args : List Term} {p : Payload} {as : List (List QBlock × Term)}
-    (hg : All2 Good args as)
-    (hnc : noClashArgs as (Term.node (if c then .and else .or) args p).fv = true) :
-    Good (.node (if c then .and else .or) args p)
-      (as.flatMap (·.1), if c then mkAnd (as.map (·.2)) else mkOr (as.map (·.2))) := by
-  have hop : (if c then Op.and else Op.or) ≠ .symbol ∧ (if c then Op.and else Op.or) ≠ .function ∧
-      (if c then Op.and else Op.or).isQuantifier = false := by cases c <;> decide
-  have hfv : ∀ a ∈ args, ∀ s ∈ a.fv, s ∈ (Term.node (if c then .and else .or) args p).fv :=
-    fun a ha s hs => mem_fv_of_child hop.1 hop.2.1 hop.2.2 ha hs
-  obtain ⟨h1, h2, h3⟩ := merge_good c hg hfv hnc
-  refine ⟨h1, fun I hI => ?_, fun s hs => ?_⟩
-  · rw [h2 I hI]
-    cases c
-    · simp only [Bool.false_eq_true, if_false, lbop, truth_or, List.any_map]; rfl
-    · simp only [if_true, lbop, truth_and, List.all_map]; rfl
-  · rcases h3 s hs with ⟨a, ha, hsa⟩ | h
-    · exact .inl (hfv a ha s hsa)
-    · exact .inr h
-
-theorem fv_binary {op : Op} (h1 : op ≠ .symbol) (h2 : op ≠ .function) (h3 : op.isQuantifier = false)
-    (a b : Term) (p : Payload) (s : Sym) : s ∈ (Term.node op [a, b] p).fv ↔ s ∈ a.fv ∨ s ∈ b.fv := by
-  rw [fv_node_plain _ _ _ h1 h2 h3]
-  simp
-
-theorem all2_pair {α β : Type} {R : α → β → Prop} {a1 a2 : α} {b1 b2 : β} (h1 : R a1 b1) (h2 : R a2 b2) :
-    All2 R [a1, a2] [b1, b2] := .cons h1 (.cons h2 .nil)
-
-/-- `walk_implies` -/
-theorem good_implies (fresh : Nat → String) {a b : Term} {ra rb : List QBlock × Term} (n : Nat) (p : Payload)
-    {fvs : List Sym} (hfa : ∀ s ∈ a.fv, s ∈ fvs) (hfb : ∀ s ∈ b.fv, s ∈ fvs)
-    (ha : Good a ra) (hb : Good b rb) (hn : (prenexImplies fresh fvs ra rb n).2 = n) :
-    Good (.node .implies [a, b] p) (prenexImplies fresh fvs ra rb n).1 := by
-  have hnc := conjDisj_eq fresh false fvs [prenexNot ra, rb] n hn
-  have hg : All2 Good [Term.node .not [a] .none, b] [prenexNot ra, rb] := all2_pair (good_not .none ha) hb
-  have hfv : ∀ x ∈ [Term.node .not [a] .none, b], ∀ s ∈ x.fv, s ∈ fvs := by
-    intro x hx s hs
-    simp only [List.mem_cons, List.not_mem_nil, or_false] at hx
-    rcases hx with rfl | rfl
-    · exact hfa s ((fv_not a .none s).mp hs)
-    · exact hfb s hs
-  obtain ⟨h1, h2, h3⟩ := merge_good false hg hfv hnc
-  unfold prenexImplies
-  rw [conjDisj_nc fresh false fvs _ n hnc]
-  refine ⟨h1, fun I hI => ?_, fun s hs => ?_⟩
-  · rw [h2 I hI]
-    simp only [lbop, Bool.false_eq_true, if_false, List.map_cons, List.map_nil, List.any_cons, List.any_nil,
-      truth_not, truth_implies, id, Bool.or_false]
-  · rcases h3 s hs with ⟨x, hx, hsx⟩ | h
-    · simp only [List.mem_cons, List.not_mem_nil, or_false] at hx
-      refine .inl ((fv_binary (by decide) (by decide) rfl a b p s).mpr ?_)
-      rcases hx with rfl | rfl
-      · exact .inl ((fv_not a .none s).mp hsx)
-      · exact .inr hsx
-    · exact .inr h
-
-theorem prenexImplies_le (fresh : Nat → String) (fvs : List Sym) (ra rb : List QBlock × Term) (n : Nat) :
-    n ≤ (prenexImplies fresh fvs ra rb n).2 := conjDisj_le fresh false fvs _ n
-
-/-- the conjunction of two results (`walk_iff`, `walk_ite`) -/
-theorem good_and2 (fresh : Nat → String) {x y : Term} {rx ry : List QBlock × Term} (n : Nat)
-    {fvs : List Sym} (hfx : ∀ s ∈ x.fv, s ∈ fvs) (hfy : ∀ s ∈ y.fv, s ∈ fvs)
-    (hx : Good x rx) (hy : Good y ry) (hn : (conjDisj fresh true fvs [rx, ry] n).2 = n) :
-    WB (conjDisj fresh true fvs [rx, ry] n).1.2 ∧
-    (∀ I : Interp, I.WF → qsem (conjDisj fresh true fvs [rx, ry] n).1.1
-        (fun J => truth J (conjDisj fresh true fvs [rx, ry] n).1.2) I = (truth I x && truth I y)) ∧
-    (∀ s ∈ (conjDisj fresh true fvs [rx, ry] n).1.2.fv,
-        (s ∈ x.fv ∨ s ∈ y.fv) ∨ s ∈ boundOf (conjDisj fresh true fvs [rx, ry] n).1.1) := by
-  have hnc := conjDisj_eq fresh true fvs [rx, ry] n hn
-  have hfv : ∀ t ∈ [x, y], ∀ s ∈ t.fv, s ∈ fvs := by
-    intro t ht s hs
-    simp only [List.mem_cons, List.not_mem_nil, or_false] at ht
-    rcases ht with rfl | rfl
-    · exact hfx s hs
-    · exact hfy s hs
-  obtain ⟨h1, h2, h3⟩ := merge_good true (all2_pair hx hy) hfv hnc
-  rw [conjDisj_nc fresh true fvs _ n hnc]
-  refine ⟨h1, fun I hI => ?_, fun s hs => ?_⟩
-  · rw [h2 I hI]
-    simp [lbop]
-  · rcases h3 s hs with ⟨t, ht, hst⟩ | h
-    · simp only [List.mem_cons, List.not_mem_nil, or_false] at ht
-      rcases ht with rfl | rfl
-      · exact .inl (.inl hst)
-      · exact .inl (.inr hst)
-    · exact .inr h
-
-theorem mem_append_left' {s : Sym} {l1 l2 : List Sym} (h : s ∈ l1) : s ∈ l1 ++ l2 := List.mem_append_left _ h
-theorem mem_append_right' {s : Sym} {l1 l2 : List Sym} (h : s ∈ l2) : s ∈ l1 ++ l2 := List.mem_append_right _ h
-
-/-- `walk_iff` -/
-theorem good_iff (fresh : Nat → String) {a b : Term} {ra rb : List QBlock × Term} (n : Nat) (p : Payload)
-    (ha : Good a ra) (hb : Good b rb)
-    (hn : (conjDisj fresh true (a.fv ++ b.fv)
-        [(prenexImplies fresh (a.fv ++ b.fv) ra rb n).1,
-         (prenexImplies fresh (b.fv ++ a.fv) rb ra (prenexImplies fresh (a.fv ++ b.fv) ra rb n).2).1]
-        (prenexImplies fresh (b.fv ++ a.fv) rb ra (prenexImplies fresh (a.fv ++ b.fv) ra rb n).2).2).2 = n) :
-    Good (.node .iff [a, b] p)
-      (conjDisj fresh true (a.fv ++ b.fv)
-        [(prenexImplies fresh (a.fv ++ b.fv) ra rb n).1,
-         (prenexImplies fresh (b.fv ++ a.fv) rb ra (prenexImplies fresh (a.fv ++ b.fv) ra rb n).2).1]
-        (prenexImplies fresh (b.fv ++ a.fv) rb ra (prenexImplies fresh (a.fv ++ b.fv) ra rb n).2).2).1 := by
-  have l1 := prenexImplies_le fresh (a.fv ++ b.fv) ra rb n
-  have l2 := prenexImplies_le fresh (b.fv ++ a.fv) rb ra (prenexImplies fresh (a.fv ++ b.fv) ra rb n).2
-  have l3 := conjDisj_le fresh true (a.fv ++ b.fv)
-        [(prenexImplies fresh (a.fv ++ b.fv) ra rb n).1,
-         (prenexImplies fresh (b.fv ++ a.fv) rb ra (prenexImplies fresh (a.fv ++ b.fv) ra rb n).2).1]
-        (prenexImplies fresh (b.fv ++ a.fv) rb ra (prenexImplies fresh (a.fv ++ b.fv) ra rb n).2).2
-  have e1 : (prenexImplies fresh (a.fv ++ b.fv) ra rb n).2 = n := by omega
-  rw [e1] at l2 l3 hn ⊢
-  have e2 : (prenexImplies fresh (b.fv ++ a.fv) rb ra n).2 = n := by omega
-  rw [e2] at l3 hn ⊢
-  have g1 := good_implies fresh n .none (fun s hs => mem_append_left' hs) (fun s hs => mem_append_right' hs) ha hb e1
-  have g2 := good_implies fresh n .none (fun s hs => mem_append_left' hs) (fun s hs => mem_append_right' hs) hb ha e2
-  have hfx : ∀ s ∈ (Term.node .implies [a, b] .none).fv, s ∈ a.fv ++ b.fv := by
+    obtain ⟨a, ha, hga⟩ := hg.mem_right r hr
+    apply hga.supp.mono
     intro s hs
-    rcases (fv_binary (by decide) (by decide) rfl a b .none s).mp hs with h | h
-    · exact mem_append_left' h
-    · exact mem_append_right' h
-  have hfy : ∀ s ∈ (Term.node .implies [b, a] .none).fv, s ∈ a.fv ++ b.fv := by
-    intro s hs
-    rcases (fv_binary (by decide) (by decide) rfl b a .none s).mp hs with h | h
-    · exact mem_append_right' h
-    · exact mem_append_left' h
-  obtain ⟨h1, h2, h3⟩ := good_and2 fresh n hfx hfy g1 g2 hn
-  refine ⟨h1, fun I hI => ?_, fun s hs => ?_⟩
-  · rw [h2 I hI, truth_implies, truth_implies, truth_iff]
-    cases truth I a <;> cases truth I b <;> rfl
-  · rcases h3 s hs with (h | h) | h
-    · refine .inl ((fv_binary (by decide) (by decide) rfl a b p s).mpr ?_)
-      exact (fv_binary (by decide) (by decide) rfl a b .none s).mp h
-    · refine .inl ((fv_binary (by decide) (by decide) rfl a b p s).mpr ?_)
-      exact ((fv_binary (by decide) (by decide) rfl b a .none s).mp h).symm
-    · exact .inr h
+    rcases List.mem_append.mp hs with h1 | h1
+    · exact List.mem_append_left _ (hfv a ha s h1)
+    · exact List.mem_append_right _ (mem_boundOf_flatMap.mpr ⟨r, hr, h1⟩)
 
-theorem fv_ite (c a b : Term) (p : Payload) (s : Sym) :
-    s ∈ (Term.node .ite [c, a, b] p).fv ↔ s ∈ c.fv ∨ s ∈ a.fv ∨ s ∈ b.fv := by
-  rw [fv_node_plain _ _ _ (by decide) (by decide) rfl]
-  simp
+/-- a clash-free prefix with duplicate-free blocks binds every variable once -/
+theorem nodup_of_noClash : ∀ (qs : List QBlock) (res : List Sym), noClash qs res = true →
+    (∀ blk ∈ qs, blk.2.Nodup) → (boundOf qs).Nodup
+  | [], _, _, _ => by simp [boundOf]
+  | (q, vs) :: rest, res, h, hb => by
+    simp only [noClash, Bool.and_eq_true] at h
+    rw [boundOf_cons, List.nodup_append]
+    refine ⟨hb (q, vs) (by simp), nodup_of_noClash rest _ h.2 (fun blk hblk => hb blk (by simp [hblk])), ?_⟩
+    intro a ha b hbm e
+    subst e
+    exact noClash_not_mem rest _ h.2 a hbm (List.mem_append_right _ ha)
 
-/-- `walk_ite` -/
-theorem good_ite (fresh : Nat → String) {c a b : Term} {rc ra rb : List QBlock × Term} (n : Nat) (p : Payload)
-    (hc : Good c rc) (ha : Good a ra) (hb : Good b rb)
-    (hn : (conjDisj fresh true (c.fv ++ a.fv ++ b.fv)
-        [(prenexImplies fresh (c.fv ++ a.fv) rc ra n).1,
-         (prenexImplies fresh (c.fv ++ b.fv) (prenexNot rc) rb (prenexImplies fresh (c.fv ++ a.fv) rc ra n).2).1]
-        (prenexImplies fresh (c.fv ++ b.fv) (prenexNot rc) rb (prenexImplies fresh (c.fv ++ a.fv) rc ra n).2).2).2 = n) :
-    Good (.node .ite [c, a, b] p)
-      (conjDisj fresh true (c.fv ++ a.fv ++ b.fv)
-        [(prenexImplies fresh (c.fv ++ a.fv) rc ra n).1,
-         (prenexImplies fresh (c.fv ++ b.fv) (prenexNot rc) rb (prenexImplies fresh (c.fv ++ a.fv) rc ra n).2).1]
-        (prenexImplies fresh (c.fv ++ b.fv) (prenexNot rc) rb (prenexImplies fresh (c.fv ++ a.fv) rc ra n).2).2).1 := by
-  have l1 := prenexImplies_le fresh (c.fv ++ a.fv) rc ra n
-  have l2 := prenexImplies_le fresh (c.fv ++ b.fv) (prenexNot rc) rb (prenexImplies fresh (c.fv ++ a.fv) rc ra n).2
-  have l3 := conjDisj_le fresh true (c.fv ++ a.fv ++ b.fv)
-        [(prenexImplies fresh (c.fv ++ a.fv) rc ra n).1,
-         (prenexImplies fresh (c.fv ++ b.fv) (prenexNot rc) rb (prenexImplies fresh (c.fv ++ a.fv) rc ra n).2).1]
-        (prenexImplies fresh (c.fv ++ b.fv) (prenexNot rc) rb (prenexImplies fresh (c.fv ++ a.fv) rc ra n).2).2
-  have e1 : (prenexImplies fresh (c.fv ++ a.fv) rc ra n).2 = n := by omega
-  rw [e1] at l2 l3 hn ⊢
-  have e2 : (prenexImplies fresh (c.fv ++ b.fv) (prenexNot rc) rb n).2 = n := by omega
-  rw [e2] at l3 hn ⊢
-  have g1 := good_implies fresh n .none (fun s hs => mem_append_left' hs) (fun s hs => mem_append_right' hs) hc ha e1
-  have hnc : Good (Term.node .not [c] .none) (prenexNot rc) := good_not .none hc
-  have g2 := good_implies fresh n .none
-    (fun s hs => mem_append_left' ((fv_not c .none s).mp hs)) (fun s hs => mem_append_right' hs) hnc hb e2
-  have hfx : ∀ s ∈ (Term.node .implies [c, a] .none).fv, s ∈ c.fv ++ a.fv ++ b.fv := by
-    intro s hs
-    rcases (fv_binary (by decide) (by decide) rfl c a .none s).mp hs with h | h
-    · exact mem_append_left' (mem_append_left' h)
-    · exact mem_append_left' (mem_append_right' h)
-  have hfy : ∀ s ∈ (Term.node .implies [Term.node .not [c] .none, b] .none).fv, s ∈ c.fv ++ a.fv ++ b.fv := by
-    intro s hs
-    rcases (fv_binary (by decide) (by decide) rfl _ b .none s).mp hs with h | h
-    · exact mem_append_left' (mem_append_left' ((fv_not c .none s).mp h))
-    · exact mem_append_right' h
-  obtain ⟨h1, h2, h3⟩ := good_and2 fresh n hfx hfy g1 g2 hn
-  refine ⟨h1, fun I hI => ?_, fun s hs => ?_⟩
-  · rw [h2 I hI, truth_implies, truth_implies, truth_not, truth_ite]
-    cases truth I c <;> cases truth I a <;> cases truth I b <;> rfl
-  · rcases h3 s hs with (h | h) | h
-    · refine .inl ((fv_ite c a b p s).mpr ?_)
-      rcases (fv_binary (by decide) (by decide) rfl c a .none s).mp h with h | h
-      · exact .inl h
-      · exact .inr (.inl h)
-    · refine .inl ((fv_ite c a b p s).mpr ?_)
-      rcases (fv_binary (by decide) (by decide) rfl _ b .none s).mp h with h | h
-      · exact .inl ((fv_not c .none s).mp h)
-      · exact .inr (.inr h)
-    · exact .inr h
-
-/-! ## binders -/
-
-theorem dedupSyms_mem (x : Sym) : ∀ l : List Sym, x ∈ dedupSyms l → x ∈ l
-  | [], h => by simp [dedupSyms] at h
-  | y :: ys, h => by
-    simp only [dedupSyms, List.mem_cons, List.mem_filter] at h ⊢
-    rcases h with h | ⟨h, _⟩
-    · exact .inl h
-    · exact .inr (dedupSyms_mem x ys h)
-
-theorem dedupSyms_of_nodup : ∀ l : List Sym, nodupB l = true → dedupSyms l = l
-  | [], _ => rfl
-  | x :: xs, h => by
-    simp only [nodupB, Bool.and_eq_true, Bool.not_eq_eq_eq_not, Bool.not_true] at h
-    rw [dedupSyms, dedupSyms_of_nodup xs h.2, List.filter_eq_self.mpr]
-    intro y hy
-    have : y ≠ x := by
-      rintro rfl
-      have := h.1
-      simp [hy] at this
-    simpa using this
-
-/-- `walk_quantifier` -/
-theorem good_quant (isExists : Bool) {b : Term} {vs : List Sym} {rb : List QBlock × Term} (hb : Good b rb)
-    (hnd : nodupB vs = true) :
-    Good (.node (if isExists then .exists_ else .forall_) [b] (.qvars vs)) (prenexQuant isExists vs rb) := by
-  obtain ⟨qs, m⟩ := rb
-  have hK : ∀ I : Interp, I.WF →
-      I.quant (!isExists) (vs.filter (fun v => !(boundOf qs).contains v)) (qsem qs (fun J => truth J m)) =
-        truth I (.node (if isExists then .exists_ else .forall_) [b] (.qvars vs)) := by
-    intro I hI
-    rw [← quant_filter (!isExists) (boundOf qs) (fun s hs => inv_qsem qs _ hs) vs I hI,
-      quant_congr_wf _ _ (fun J => truth J b) (fun J hJ => hb.sem J hJ) vs I hI]
-    cases isExists
-    · simp only [Bool.false_eq_true, if_false, Bool.not_false, truth_forall]
-    · simp only [if_true, Bool.not_true, truth_exists]
-  have hfvq : ∀ s, s ∈ (Term.node (if isExists then Op.exists_ else Op.forall_) [b] (.qvars vs)).fv ↔
-      s ∈ b.fv ∧ s ∉ vs := by
-    intro s
-    cases isExists
-    · simp only [Bool.false_eq_true, if_false, fv_forall]
-      simp
-    · simp only [if_true, fv_exists]
-      simp
-  have hpq : prenexQuant isExists vs (qs, m) =
-      if (vs.filter (fun v => !(boundOf qs).contains v)).isEmpty then (qs, m)
-      else (qs ++ [(isExists, vs.filter (fun v => !(boundOf qs).contains v))], m) := by
-    simp only [prenexQuant, dedupSyms_of_nodup vs hnd]
-  rw [hpq]
-  by_cases hemp : (vs.filter (fun v => !(boundOf qs).contains v)).isEmpty = true
-  · rw [if_pos hemp]
-    have hnil : vs.filter (fun v => !(boundOf qs).contains v) = [] := List.isEmpty_iff.mp hemp
-    refine ⟨hb.wb, fun I hI => ?_, fun s hs => ?_⟩
-    · have := hK I hI
-      rw [hnil] at this
-      exact this
-    · rcases hb.fv s hs with h | h
-      · by_cases hv : s ∈ vs
-        · by_cases hbd : s ∈ boundOf qs
-          · exact .inr hbd
-          · have : s ∈ vs.filter (fun v => !(boundOf qs).contains v) := by
-              simp [hv, hbd]
-            rw [hnil] at this; cases this
-        · exact .inl ((hfvq s).mpr ⟨h, hv⟩)
-      · exact .inr h
-  · rw [if_neg hemp]
-    refine ⟨hb.wb, fun I hI => ?_, fun s hs => ?_⟩
-    · simp only [qsem_append, qsem]
-      exact hK I hI
-    · have hbo : boundOf (qs ++ [(isExists, vs.filter (fun v => !(boundOf qs).contains v))]) =
-          boundOf qs ++ vs.filter (fun v => !(boundOf qs).contains v) := by
-        simp [boundOf]
-      simp only [hbo, List.mem_append, List.mem_filter]
-      rcases hb.fv s hs with h | h
-      · by_cases hv : s ∈ vs
-        · by_cases hbd : s ∈ boundOf qs
-          · exact .inr (.inl hbd)
-          · exact .inr (.inr ⟨hv, by simpa using hbd⟩)
-        · exact .inl ((hfvq s).mpr ⟨h, hv⟩)
-      · exact .inr (.inl h)
+theorem nodup_of_noClashArgs : ∀ (as : List (List QBlock × Term)) (res : List Sym), noClashArgs as res = true →
+    (∀ r ∈ as, (boundOf r.1).Nodup) → (boundOf (as.flatMap (·.1))).Nodup
+  | [], _, _, _ => by simp [boundOf]
+  | (qs, m) :: rest, res, h, hb => by
+    simp only [noClashArgs, Bool.and_eq_true] at h
+    have e : boundOf (((qs, m) :: rest).flatMap (·.1)) = boundOf qs ++ boundOf (rest.flatMap (·.1)) := by
+      simp [boundOf]
+    rw [e, List.nodup_append]
+    refine ⟨hb (qs, m) (by simp), nodup_of_noClashArgs rest _ h.2 (fun r hr => hb r (by simp [hr])), ?_⟩
+    intro a ha b hbm e'
+    subst e'
+    obtain ⟨r, hr, hsr⟩ := mem_boundOf_flatMap.mp hbm
+    exact noClashArgs_not_mem rest _ h.2 r hr a hsr (List.mem_append_right _ ha)
 
 end PySMT.Rewritings
